@@ -321,7 +321,7 @@ impl Property for C11 {
         vec![("crash-in-snapshot", 1)]
     }
     fn budget(&self) -> (u64, u64) {
-        (1_200, 6_000)
+        (1_200, 12_000)
     }
     fn rule(&self) -> &'static str {
         "dataset pairs (D0 persisted by a completed snapshot, D1 = D0 + 1-5 of {set,remove,increment}) over 4 keys x 1-2 databases (a quarter of the datasets add 6-30 new keys with names of 1-70 bytes and short or long values, so that the keys and values writer buffers spill at different moments), values smaller and larger than the 250-byte writer buffers, optional earlier reclaiming snapshot, interrupted snapshot incremental or reclaiming. A crash-free run counts the n mutating disk calls (create/write/rename/unlink/mkdir, including every BufWriter spill, the key map, the oplog-valid flag, metadata and concurrent oplog appends) between the snapshot request and its completion; then the node is killed before and after call k and restarted: quick = 6 sampled (k,before/after) per dataset, thorough = all 2n. evaluations = dataset pairs; coverage.crash_runs = simulated kill+restart executions. Non-trivial: the kill landed inside the window and the node was restarted. distinct = distinct (dataset, crash point)."
